@@ -21,7 +21,10 @@ func NewTrie() *Trie {
 
 func (t *Trie) Insert(word string) {
 	node := t.root
-	for _, ch := range word {
+	// walk byte-wise: keys are binary safe, ranging over runes would map every
+	// invalid UTF-8 byte to U+FFFD and conflate distinct keys
+	for i := 0; i < len(word); i++ {
+		ch := rune(word[i])
 		if node.children[ch] == nil {
 			node.children[ch] = &TrieNode{
 				children: make(map[rune]*TrieNode),
@@ -35,7 +38,8 @@ func (t *Trie) Insert(word string) {
 
 func (t *Trie) IsPrefixMatch(word string) bool {
 	node := t.root
-	for _, ch := range word {
+	for i := 0; i < len(word); i++ {
+		ch := rune(word[i])
 		node = node.children[ch]
 		if node == nil {
 			return false
@@ -49,7 +53,8 @@ func (t *Trie) IsPrefixMatch(word string) bool {
 
 func (t *Trie) Search(word string) bool {
 	node := t.root
-	for _, ch := range word {
+	for i := 0; i < len(word); i++ {
+		ch := rune(word[i])
 		node = node.children[ch]
 		if node == nil {
 			return false
